@@ -58,8 +58,16 @@ def guess_type_name(value):
 
 def deserialize_value(ty, value):
     '''
-    Deserialize a value of some type
+    Deserialize a value of some type. None is returned if the value cannot
+    be deserialized to the type.
     '''
+    try:
+        return _deserialize_value(ty, value)
+    except ValueError:
+        return None
+
+
+def _deserialize_value(ty, value):
     uty = ty.upper()
     
     if uty == 'BOOLEAN':
